@@ -8,6 +8,25 @@ from props.c01 import compare_case
 FIELDS = ["href", "host", "hostname", "port", "hosttype"]
 
 
+def disguise(rng, h):
+    """an IPv4 spelling that does not look like ASCII digits and dots until domain-to-ASCII has run: percent-escapes,
+    full-width digits, ideographic / full-width / half-width full stops (these take the slow path of the host parser)"""
+    out = []
+    for ch in h.decode("ascii"):
+        r = rng.random()
+        if r < 0.12:
+            out.append("%%%02x" % ord(ch) if rng.random() < 0.5 else "%%%02X" % ord(ch))
+        elif r < 0.2 and ch.isdigit():
+            out.append(chr(0xFF10 + int(ch)))
+        elif r < 0.3 and ch == ".":
+            out.append(rng.choice(["\u3002", "\uff0e", "\uff61"]))
+        elif r < 0.25 and ch in "xXabcdefABCDEF":
+            out.append(chr(ord(ch) - 0x41 + 0xFF21) if ch.isupper() else chr(ord(ch) - 0x61 + 0xFF41))
+        else:
+            out.append(ch)
+    return "".join(out).encode("utf-8")
+
+
 def host_cases(rng, n):
     out = []
     while len(out) < n:
@@ -15,6 +34,14 @@ def host_cases(rng, n):
         scheme = rng.choice([b"http", b"https", b"ws", b"ftp", b"file", b"sc", b"foo"])
         if r < 0.1:
             h = genlib.numberish_host(rng)
+        elif r < 0.18:
+            h = genlib.gen_ipv4(rng)
+            if rng.random() < 0.5 and not h.endswith(b"."):
+                h += b"."
+            try:
+                h = disguise(rng, h)
+            except UnicodeDecodeError:
+                pass
         elif r < 0.4:
             h = genlib.gen_ipv4(rng)
         elif r < 0.7:
